@@ -84,6 +84,10 @@ pub fn programs() -> Vec<(String, String)> {
         out.push((format!("printed-chain-of-{}-arrays", n), format!("let cur = 0; let i = 0; while i < {} do begin cur <- array(1, cur); i <- i + 1 end; print(\"~\\n\", cur)", n)));
         out.push((format!("printed-chain-of-{}-parents", n), format!("let cur = null; let i = 0; while i < {} do begin cur <- object extends cur begin let k = i end; i <- i + 1 end; print(\"~\\n\", cur)", n)));
     }
+    // overflowing arithmetic through every spelling of the operators (wraps in every build)
+    for (name, call) in [("add", "2147483647.add(1)"), ("sub", "-2147483648.sub(1)"), ("mul", "65536.mul(65536)"), ("plus", "2147483647 + 1"), ("minus", "-2147483648 - 1"), ("times", "46341 * 46341"), ("plus-call", "2147483647.+(1)")] {
+        out.push((format!("overflow-through-{}", name), format!("print(\"before\\n\"); print(\"~\\n\", {}); print(\"after\\n\")", call)));
+    }
     // integer literals around the 32-bit range (beyond it the parser refuses; it must do so alike everywhere)
     for (name, lit) in [("max", "2147483647"), ("min", "-2147483648"), ("max-plus-1", "2147483648"), ("min-minus-1", "-2147483649"), ("u32-max", "4294967295"), ("i64-max-plus-1", "9223372036854775808")] {
         out.push((format!("integer-literal-{}", name), format!("print(\"before\\n\"); print(\"~\\n\", {})", lit)));
